@@ -32,6 +32,14 @@ HASHGEN = ["Meddly.HashStreamGen." + t for t in [
     "genRun_sim", "model_is_generated", "gen_total", "gen_push2_eq", "gen_push3_eq", "gen_hash_of_sequence",
     "gen_hashSeq", "gen_hash_agree"]]
 
+# Theorems tying the hand-written State/CounterArray.lean to the GENERATED Gen/CounterArray.lean (<- arrays.h, arrays.cc)
+CAGEN = ["Meddly.CounterArrayGen." + t for t in [
+    "expand8to16_ok", "expand16to32_ok", "shrink16to8_ok", "shrink32to16_ok", "shrink32to8_ok",
+    "init_gen", "entry_bits_gen", "get_gen", "swap_gen", "increment_gen", "decrement_gen",
+    "isZeroBeforeIncrement_gen", "isPositiveAfterDecrement_gen", "expand_gen", "shrink_gen",
+    "gen_step", "fitN_step", "gen_run_sim", "gen_counter_refines", "gen_width_inv", "gen_tally_exact",
+    "gen_model_agrees", "gen_junk_irrelevant"]]
+
 # family run: (family, flavor, extra args)
 def fam(name, flavor="plain", **kw):
     # keys starting with "_" are for the runner, not the harness: _only=<regex> keeps only the disagreements of
@@ -42,6 +50,10 @@ def fam(name, flavor="plain", **kw):
             spec[k[1:]] = v
     return spec
 
+
+# family gen validates three translators: level arithmetic + hash stream (C01/C02) and counter_array (C06)
+NOT_GC = r"kind=(?!gen-gc)"
+ONLY_GC = r"kind=(gen-gc|crash|truncated|unknown)"
 
 # disagreement kinds that are violations of C02 (the stored structure itself is malformed)
 STRUCT_KINDS = r"kind=(canonical|canonicity|node-count|crash|views-agree\S*|views-hash-alike\S*|unique-table-finds-node\S*)"
@@ -134,8 +146,9 @@ PROPS = {
                             "Meddly.UniqueTable.dump_distinctOK"] + LEVELS + HASHGEN,
         # regenerated from forest_levels.h / defines.h / hash_stream.h on every run; a failed translator is a broken obligation
         "gen": ["Gen.Levels", "Gen.HashStream"],
-        "quick": [fam("canon"), fam("gen")],
-        "thorough": [fam("canon", "asan"), fam("gen", "asan")],
+        # family gen also replays counter_array histories (kind=gen-gc*): those belong to C06
+        "quick": [fam("canon"), fam("gen", _only=NOT_GC)],
+        "thorough": [fam("canon", "asan"), fam("gen", "asan", _only=NOT_GC)],
         "leanchecker": ["MeddlyModel.Core.Canon", "MeddlyModel.Core.Dump", "MeddlyModel.Props.Levels", "MeddlyModel.Props.HashStreamGen"],
         "level_text": "DD.canon: two reduced trees (fully / quasi / identity rule, any domain with sizes >= 2, any terminal type) denote the same function iff they are the same tree; Dump.check_sound + Dump.unfold_inj: a dump of the real node store accepted by the verified checker unfolds injectively into reduced trees, so in THAT real state every two edges are equal iff they denote the same function (all assignments, not the sampled ones); mkNode_red/apply*_red: the model's createReducedNode and apply keep the reduced form. Tie: every quiescent state of random histories is dumped and certified; the same function is built along 5 different paths (minterm orders, op chains, copies through other forests, after GC and handle reuse) and the observed == partition must equal the partition by evaluation table.",
         "level_note": "Proved for multi-terminal forests (DD.canon) and for EV+ forests (EDD.canon: normalised edge values, value of a reduced edge = minimum of its denotation; EDump.check_sound for dumps); EV* (real, multiplicative) forests are covered by the structural recount, the == partition and evaluation only. Real-valued comparisons in the library are approximate (1e-6 relative): generators stay on an exactness-safe grid; rounding coincidences are not modelled. The unique table's hashing is observed only through its effect (duplicates in the dump). Translator tie: the level arithmetic (MDD_levels / MXD_levels / isLevelAbove, forest_levels.h + defines.h) and the hash stream primitives (hash_stream.h) are regenerated into Lean on every run; Props/Levels.lean proves that the model's position numbering (unprimed k = 2k, primed -k = 2k-1) is exactly the library's level order (downLevel = position-1, topLevel = larger position, isLevelAbove = position >) and Props/HashStreamGen.lean that the hand-written hash-stream model equals the generated functions, so hash_agree / push2_eq / hash_of_sequence are statements about the header's current text; the differential family gen validates both translators against the real inline functions.",
@@ -183,17 +196,19 @@ PROPS = {
         "theorems": ["Meddly.NodeLife." + t for t in [
             "counts_exact", "no_dangling", "held_alive", "content_stable", "reuse_only_free",
             "no_reuse_while_cached", "all_reclaimed", "all_reclaimed_pessimistic", "release_never_fails"]] +
-            ["Meddly.CounterArray." + t for t in ["counter_refines", "width_inv", "tally_exact"]] +
+            ["Meddly.CounterArray." + t for t in ["counter_refines", "width_inv", "tally_exact"]] + CAGEN +
             ["Meddly.Dump.check_sound", "Meddly.Dump.evalFast_eq_evalChild"] +
             # the recount certificate run on every dump (Recount.ok) and what an accepted dump implies
             ["Meddly.Recount." + t for t in ["top_unreferenced", "exists_unreferenced_of_no_roots", "count_zero_of_no_roots",
                                              "no_leak", "root_counted"]],
-        "quick": [fam("nodelife"), fam("canon"), fam("oplife")],
-        "thorough": [fam("nodelife", "asan"), fam("canon", "asan"), fam("oplife", "asan")],
-        "leanchecker": ["MeddlyModel.State.NodeLife", "MeddlyModel.State.CounterArray"],
+        # regenerated from arrays.h / arrays.cc on every run; a failed translator is a broken obligation
+        "gen": ["Gen.CounterArray"],
+        "quick": [fam("nodelife"), fam("canon"), fam("oplife"), fam("gen", _only=ONLY_GC)],
+        "thorough": [fam("nodelife", "asan"), fam("canon", "asan"), fam("oplife", "asan"), fam("gen", "asan", _only=ONLY_GC)],
+        "leanchecker": ["MeddlyModel.State.NodeLife", "MeddlyModel.State.CounterArray", "MeddlyModel.Props.CounterArrayGen"],
         "level_text": "NodeLife state machine (per handle free | active(level, in, cc, children) | deleted(cc); explicit multiset of outside references; pessimistic / optimistic policy) with theorems for EVERY legal op list: counts_exact (incoming count = number of references), no_dangling, held_alive, content_stable (a held node keeps level and children), reuse_only_free, no_reuse_while_cached, all_reclaimed (no references and no cache marks => every handle free; pessimistic: no references => no active handle). CounterArray refines a plain array of naturals through the 8/16/32-bit widening and narrowing. Tie: (D) a real forest driven at the primitive level (createReducedNode / link / unlink / cache / uncache / dd_edge set-copy-clear) with the state of EVERY handle compared with the model after every step, counts pushed across 255 and 65535, handle table grown and shrunk; the real counter_array class driven op by op; (S) in the canon family every dump is recounted (parents + registered roots = reported incoming count), every held edge is re-evaluated against its target after GC churn, and after releasing all edges and clearing caches the forest must report 0 nodes (Recount.no_leak: for a dump accepted by the recount with no user edge left, 'every node has a positive count' is contradictory unless the store is empty - the highest node is referenced by nobody - so the 0-nodes expectation follows from the certificate plus the reclamation rule; Recount.root_counted: a held edge's target has a positive count); family oplife does the same over random HISTORIES of real operations (set algebra, COMPLEMENT, COPY between rules, POST/PRE_IMAGE, integer and EV+ arithmetic, comparisons; edge copies, assignments, releases, cache clears) over up to four forests with random rules and policies on STRUCTURED operands (identity patterns, redundant and fixed variables - the shapes on which operations take early exits and chain builders): exact recount of every forest at random points, every result against the pointwise oracle, every held edge keeps its function, every forest empty at the end.",
-        "level_note": "Paired (every creation/destruction of a reference carries its link/unlink) is the legality of the model run; on the implementation it is checked by the recount certificate, not assumed. A C++-level use-after-free cannot be exhibited by the theorem: the thorough tier runs the ASan flavour. Which free handle is picked is nondeterminism of the model. 'never delete' is indistinguishable from optimistic in the code and is mapped so.",
-        "technique": "Lean 4 proof (invariants by induction over op lists, refinement) + step-by-step differential run on a real forest + recount certificate on dumps",
+        "level_note": "Translator tie for the counter widths: the whole class counter_array (constructor, get, swap, increment, decrement, isZeroBeforeIncrement, isPositiveAfterDecrement, entry_bits from arrays.h; expand, shrink, expand8to16, expand16to32, shrink16to8, shrink32to16, shrink32to8 from arrays.cc) is regenerated into Lean on every run (Gen/CounterArray.lean: three optional arrays, explicit wrap-around of unsigned char / short / int / size_t, malloc / realloc / memset / free and the copy loops, unspecified contents of fresh memory as a universally quantified parameter); Props/CounterArrayGen.lean proves every generated member equal to the hand-written CounterArray model on every in-contract call (for every content of fresh memory) and restates counter_refines / width_inv / tally_exact for the generated step function, so these are statements about the CURRENT text of arrays.h / arrays.cc; the differential family gen validates the translator against the real class (with a recording array_watcher). Paired (every creation/destruction of a reference carries its link/unlink) is the legality of the model run; on the implementation it is checked by the recount certificate, not assumed. A C++-level use-after-free cannot be exhibited by the theorem: the thorough tier runs the ASan flavour. Which free handle is picked is nondeterminism of the model. 'never delete' is indistinguishable from optimistic in the code and is mapped so.",
+        "technique": "Lean 4 proof (invariants by induction over op lists, refinement) + translator (clang AST of arrays.h / arrays.cc -> Lean) with equality proofs + step-by-step differential run on a real forest + recount certificate on dumps",
         "partial": ["mark-and-sweep forests not covered", "EV/quasi/identity forests only through the canon-family recount"],
     },
     "C17": {
